@@ -93,8 +93,11 @@ NS_URI = {'tal': 'http://xml.zope.org/namespaces/tal', 'metal': 'http://xml.zope
           'i18n': 'http://xml.zope.org/namespaces/i18n', 'meta': 'http://xml.zope.org/namespaces/meta'}
 
 
-def attr_name(spelling, ns, name):
-    """spelling of a language attribute: prefix form (possibly renamed prefix) or data- form"""
+def attr_name(spelling, ns, name, node=None, kind=None):
+    """spelling of a language attribute: prefix form (possibly renamed prefix) or data- form; a node may ask for
+    the data form of some of its statement kinds only ('data_for': ['content', ...])"""
+    if node is not None and kind in (node.get('data_for') or ()):
+        return 'data-%s-%s' % (ns, name)
     if spelling and spelling.get('form') == 'data':
         return 'data-%s-%s' % (ns, name)
     pfx = (spelling or {}).get('prefixes', {}).get(ns, ns)
@@ -152,7 +155,7 @@ def serialise(node, prefix='tal', spelling=None, root=True):
             lang.append('%s="%s"' % (attr_name(spelling, 'metal', attr), attr_escape(node[key])))
     for key in ('translate', 'name', 'domain', 'context', 'target', 'attributes'):
         if ('i18n_' + key) in node:
-            lang.append('%s="%s"' % (attr_name(spelling, 'i18n', key), attr_escape(node['i18n_' + key])))
+            lang.append('%s="%s"' % (attr_name(spelling, 'i18n', key, node, 'i18n_' + key), attr_escape(node['i18n_' + key])))
     present = [s for s in node.get('order', STATEMENTS) if s in node]
     present += [s for s in STATEMENTS if s in node and s not in present]
     dyn = []
@@ -162,7 +165,7 @@ def serialise(node, prefix='tal', spelling=None, root=True):
                 continue                     # the element form implies the omission of the tag
             dyn.append('%s="%s"' % (TALNAME.get(st, st), attr_escape(statement_text(node, st))))
         else:
-            dyn.append('%s="%s"' % (attr_name(spelling, 'tal', TALNAME.get(st, st)),
+            dyn.append('%s="%s"' % (attr_name(spelling, 'tal', TALNAME.get(st, st), node, st),
                                     attr_escape(statement_text(node, st))))
     # statement attributes are interleaved after the static ones unless 'mix' asks otherwise
     parts = decl + stat + lang + dyn
